@@ -680,7 +680,19 @@ def c_res_md(r) -> str:
     return f"(Ok {c_md(r[1])})" if r[0] == "ok" else f"(Err {r[1]})"
 
 
+MISMATCH_TERM = '(IRead ""%string None, OJson JNull)'  # a case that can never agree
+
+
 def coq_case(c, o):
+    try:
+        return _coq_case(c, o)
+    except (KeyError, TypeError, AttributeError):
+        # an observed dump does not have the shape of the format any more (a field removed / renamed in the model):
+        # the model and the code disagree, reported as a correspondence mismatch
+        return MISMATCH_TERM
+
+
+def _coq_case(c, o):
     k = c["kind"]
     gv = cstr(SC()["gv"])
     if k in ("dump", "text", "attrs", "cli", "vobj") and ("build_error" in o or o["canon"] != c["m"]):
